@@ -7,6 +7,7 @@ package exec
 import (
 	"context"
 	"fmt"
+	"math/big"
 	"reflect"
 	"regexp"
 	"runtime"
@@ -176,6 +177,18 @@ func repoFrame() string {
 	return "?"
 }
 
+// safeText renders an amount the code under test handed out. A number that another run is
+// still writing to (which is a violation the oracles report) can be in a state math/big
+// panics on: the rendering then says so instead of taking the harness down.
+func safeText(v *big.Int) (s string) {
+	defer func() {
+		if r := recover(); r != nil {
+			s = fmt.Sprintf("<unprintable number: %v>", r)
+		}
+	}()
+	return v.String()
+}
+
 func fillResult(o *Outcome, res *interpreter.ExecutionResult) {
 	if res == nil {
 		o.NilResult = true
@@ -184,7 +197,7 @@ func fillResult(o *Outcome, res *interpreter.ExecutionResult) {
 	for _, p := range res.Postings {
 		amt := "<nil>"
 		if p.Amount != nil {
-			amt = p.Amount.String()
+			amt = safeText(p.Amount)
 		}
 		o.Postings = append(o.Postings, fmt.Sprintf("%s->%s %s %s", p.Source, p.Destination, p.Asset, amt))
 	}
